@@ -166,6 +166,15 @@ def ghost_call(ex, st, name, e):
         return mk_int(ctx.field_array(st, "len", AII)[args[0].z])
     if name == "field":
         return ex.load_field(st, args[0], args[1].x, e)
+    if name == "store":
+        return SV("array", z3.Store(args[0].z, as_int(ctx, st, args[1], e), as_int(ctx, st, args[2], e)))
+    if name == "define":
+        # quantified definitional axiom of a NON-recursive spec function (safe trigger: the application itself)
+        sf = args[0].z
+        if not isinstance(sf, SpecFun):
+            raise Unsupported("define of non-specfun", e)
+        define_specfun(ex, st, sf, e)
+        return NONE
     if name == "assume_":
         ctx.assume(st, truth(ctx, st, args[0], e))
         ctx.notes.append("assume_ at line %d: %s" % (e.lineno, ast.unparse(e.args[0])))
@@ -205,6 +214,47 @@ def ghost_call(ex, st, name, e):
     raise Unsupported("ghost function %s" % name, e)
 
 
+def define_specfun(ex, st, sf, e):
+    ctx = ex.ctx
+    body = frontend.strip_docstring(sf.node)
+    if len(body) != 1 or not isinstance(body[0], ast.Return):
+        raise Unsupported("spec function %s must be a single return expression" % sf.name, e)
+    for n in ast.walk(body[0]):
+        if isinstance(n, ast.Name) and n.id == sf.name:
+            raise Unsupported("define() of a recursive spec function would be a self-triggering axiom", e)
+    bvars = []
+    tmp = St(ctx)
+    tmp.pc = []
+    tmp.heap = dict(st.heap)
+    for (pn, ann) in sf.params:
+        if ann in ("array", "bytes"):
+            v = ctx.fresh("d_" + pn, AII)
+            tmp.env[pn] = SV("array", v)
+        else:
+            v = ctx.fresh("d_" + pn)
+            tmp.env[pn] = mk_int(v)
+        tmp.defd[pn] = z3.BoolVal(True)
+        bvars.append(v)
+    fr = Frame("specfun:" + sf.name, sf.modname)
+    fr.sidecar_globals = ctx.frames[-1].sidecar_globals or getattr(ctx.frames[-1], "ghost_globals", None)
+    fr.locals_assigned = set()
+    fr.loop_ordinals = {}
+    fr.invariants = {}
+    fr.old_state = None
+    ctx.frames.append(fr)
+    saved = ctx.spec_mode
+    ctx.spec_mode = True
+    nfacts = len(ctx.facts)
+    try:
+        v = ex.ev(tmp, body[0].value)
+    finally:
+        ctx.spec_mode = saved
+        ctx.frames.pop()
+    del ctx.facts[nfacts:]  # side facts about bound variables are dropped (they would be unquantified)
+    app = sf.z(*bvars)
+    ctx.facts.append(z3.ForAll(bvars, app == as_int(ctx, tmp, v, e), patterns=[app]))
+
+
 def unfold_specfun(ex, st, sf, args, e):
     """Adds sf(args) == body[args] as a fact (body is a single return expression, evaluated in spec mode)."""
     ctx = ex.ctx
@@ -219,7 +269,7 @@ def unfold_specfun(ex, st, sf, args, e):
         tmp.env[pn] = SV("array", z) if ann in ("array", "bytes") else mk_int(z)
         tmp.defd[pn] = z3.BoolVal(True)
     fr = Frame("specfun:" + sf.name, sf.modname)
-    fr.sidecar_globals = ctx.frames[-1].sidecar_globals
+    fr.sidecar_globals = ctx.frames[-1].sidecar_globals or getattr(ctx.frames[-1], "ghost_globals", None)
     fr.locals_assigned = set()
     fr.loop_ordinals = {}
     fr.invariants = {}
@@ -610,13 +660,13 @@ def lemma_call(ex, st, lem, args, e):
     ctx.frames.append(fr)
     try:
         for r in lem.requires:
-            ctx.oblige(st, ex.ev_spec(tmp, r), "lemma-pre", e, "requires of lemma %s: %s" % (lem.name, ast.unparse(r)))
+            ctx.oblige(st, ex.ev_spec(tmp, r), "lemma-pre", e, "requires of lemma %s: %s" % (lem.name, ast.unparse(r)), force=True)
         if ctx.current_lemma is lem:
             # recursive use = induction hypothesis: the measure must decrease and stay >= 0
             if lem.decreases is None:
                 raise Unsupported("recursive lemma %s without decreases()" % lem.name, e)
             m_new = as_int(ctx, tmp, ex.ev(tmp, lem.decreases), e)
-            ctx.oblige(st, z3.And(m_new >= 0, m_new < ctx.current_measure), "decreases", e, "measure of %s decreases" % lem.name)
+            ctx.oblige(st, z3.And(m_new >= 0, m_new < ctx.current_measure), "decreases", e, "measure of %s decreases" % lem.name, force=True)
         else:
             ctx.lemma_deps.add(lem.name)
         for q in lem.ensures:
